@@ -60,7 +60,7 @@ def _build(n0, n1, m0):
     ot.add_child(name="g_3")
     st = Tree()
     st.name = m0
-    st.add_child(name="A")
+    st.add_child(name="S0")        # an extant species whose name looks like a generated one
     b = st.add_child(name="")
     b.add_child(name="B")
     b.add_child(name="C")
@@ -83,6 +83,7 @@ def check_label(n0: str, n1: str, m0: str) -> bool:
     pre: len(n0) <= 2 and len(n1) <= 2 and len(m0) <= 2
     pre: all(c in "OS01x" for c in n0) and all(c in "OS01x" for c in n1) and all(c in "OS01x" for c in m0)
     pre: n0 != n1 or n0 == ""
+    pre: m0 != "S0"
     post: __return__
     """
     ot, st = _build(n0, n1, m0)
@@ -91,7 +92,7 @@ def check_label(n0: str, n1: str, m0: str) -> bool:
     got = [n.name for n in ot.traverse("preorder")]
     sgot = [n.name for n in st.traverse("preorder")]
     return (got == _expected([n0, n1, "g_1", "g_2", "g_3"], "O") and len(set(got)) == len(got) and all(got)
-            and sgot == _expected([m0, "A", "", "B", "C"], "S") and len(set(sgot)) == len(sgot) and all(sgot))
+            and sgot == _expected([m0, "S0", "", "B", "C"], "S") and len(set(sgot)) == len(sgot) and all(sgot))
 
 
 def twin_label(n0: str, n1: str, m0: str) -> bool:
@@ -99,9 +100,10 @@ def twin_label(n0: str, n1: str, m0: str) -> bool:
     pre: len(n0) <= 2 and len(n1) <= 2 and len(m0) <= 2
     pre: all(c in "OS01x" for c in n0) and all(c in "OS01x" for c in n1) and all(c in "OS01x" for c in m0)
     pre: n0 != n1 or n0 == ""
+    pre: m0 != "S0"
     post: __return__
     """
-    return not (n0 == "" and n1 == "O0" and m0 == "S0")
+    return not (n0 == "" and n1 == "O0" and m0 == "S1")
 '''
 
 
@@ -111,7 +113,7 @@ def xhair_item(item):
     ce = r.get("check_label", {"verdict": "inconclusive", "detail": "no report: " + r.get("_raw", "")[-300:]})
     tw = r.get("twin_label", {"verdict": "inconclusive", "detail": "no report"})
     out["solver_s"] = r.get("_wall_s", 0.0)
-    out["sample"] = {"function": "ReconciliationInput.label_internal", "engine": "CrossHair", "bound": "three ancestor names, len <= 2 over {O,S,0,1,x}",
+    out["sample"] = {"function": "ReconciliationInput.label_internal", "engine": "CrossHair", "bound": "three ancestor names, len <= 2 over {O,S,0,1,x}; one extant species is called S0",
                      "verdict": ce["verdict"], "reachability twin": tw["verdict"] + ": " + tw.get("detail", "")[:90], "wall_s": r.get("_wall_s")}
     if tw["verdict"] != "counterexample":
         return {"status": "inconclusive", "reason": f"CrossHair reachability twin not refuted ({tw['verdict']})", "item": item, "section": 0}
